@@ -15,11 +15,12 @@ Inductive step :=
 | SReq (hdr : N) (c : ctx) (o : op) (a : ans)
 | SSaveRestore (ver : N) (fresh_default : bool) (reattach : list (N * N * path * mount_ans)).
 
-Record cfg := mkCfg { cf_gmap : option mapping; cf_rm : bool; cf_no_open : bool; cf_no_opendir : bool }.
+Record cfg := mkCfg { cf_gmap : option mapping; cf_rm : bool; cf_no_open : bool; cf_no_opendir : bool;
+                      cf_no_writeback : bool; cf_killpriv_v2 : bool; cf_no_readdir : bool; cf_seal_size : bool }.
 
 Definition opts_of (c : cfg) (dflt : bool) : vopts :=
   if dflt then default_opts
-  else mkO 0 default_out_opts (cf_no_open c) (cf_no_opendir c) false false false false
+  else mkO 0 default_out_opts (cf_no_open c) (cf_no_opendir c) (cf_no_writeback c) (cf_killpriv_v2 c) (cf_no_readdir c) (cf_seal_size c)
            (match cf_gmap c with Some m => m | None => (0, 0, 0) end).
 Definition vfs_of (c : cfg) (dflt : bool) : vfs := vfs_new (opts_of c dflt) (cf_rm c).
 
@@ -83,6 +84,7 @@ Definition run_step (c : cfg) (s : vfs) (st : step) : vfs * list N * bool :=
   | SQuery =>
     let o := v_opts s in
     (s, [0; b2n (v_init s); o_in o; o_out o; b2n (o_no_open o); b2n (o_no_opendir o); b2n (o_no_readdir o);
+         b2n (o_no_writeback o); b2n (o_killpriv_v2 o); b2n (o_seal_size o);
          fst (fst (o_idmap o)); snd (fst (o_idmap o)); snd (o_idmap o); 0], false)
   | SReq hdr cx o a =>
     let '(r, ev) := vfs_request s hdr cx o a in
